@@ -19,7 +19,13 @@ def install_job_wrapper(delays=None, fsize_limit=None, fail_index=None):
         if delays:
             time.sleep(delays[idx % len(delays)])
         if fsize_limit is not None and (fail_index is None or idx == fail_index):
-            resource.setrlimit(resource.RLIMIT_FSIZE, (fsize_limit, fsize_limit))
+            # soft limit only, and only for this job: the worker process runs other jobs afterwards
+            old = resource.getrlimit(resource.RLIMIT_FSIZE)
+            resource.setrlimit(resource.RLIMIT_FSIZE, (fsize_limit, old[1]))
+            try:
+                return orig(**kw)
+            finally:
+                resource.setrlimit(resource.RLIMIT_FSIZE, old)
         return orig(**kw)
     _job_binary_event_file.__module__ = "pyndl.preprocess"
     _job_binary_event_file.__qualname__ = "_job_binary_event_file"
